@@ -154,6 +154,19 @@ func mk[S, D signal.SignalTypes](fn, s, d string, conv func(*signal.Buffer[S], *
 				}
 				base := signal.Alloc[S](a)
 				dbuf := signal.Alloc[D](a)
+				if fix == 6 {
+					// the source is two frames longer than the destination (the conversion must stop at
+					// the destination's length); the extra frames hold zeros
+					la := a
+					la.Length, la.Capacity = fr+2, fr+2
+					base = signal.Alloc[S](la)
+				}
+				if fix == 7 {
+					// the destination is two frames longer than the source
+					la := a
+					la.Length, la.Capacity = fr+2, fr+2
+					dbuf = signal.Alloc[D](la)
+				}
 				if fix == 3 {
 					// both buffers come out of a pool after a round trip through it
 					ps, pd := signal.PoolAlloc[S](a), signal.PoolAlloc[D](a)
